@@ -741,3 +741,202 @@ Section OverER.
     Qed.
   End Loop.
 End OverER.
+
+(* ================================================================================================ *)
+(* 4. A zero-degree activation of a name that is already there (any numeric reading)                 *)
+
+Section ExistingName.
+  Context {T : Type} {N : Num T}.
+  Variables tm tt : term T -> T -> result T.
+
+  (* inserted after the first occurrence of its name; `S(d, 0) = d` for the degree d accumulated so far *)
+  Theorem zero_degree_neutral_existing_gen average ty agg (l1 : list (activated T)) a l2 this_type :
+    In (act_name a) (names l1) ->
+    (forall g, In g (grouped_terms agg l1) -> act_name g = act_name a ->
+               sanitize (snormx_compute (agg_or_sum agg) (a_degree g) (a_degree a)) = a_degree g) ->
+    resolve_type ty (l1 ++ a :: l2) = Ok this_type ->
+    weighted_defuzzify tm tt average ty agg (l1 ++ a :: l2) = weighted_defuzzify tm tt average ty agg (l1 ++ l2).
+  Proof.
+    intros Hin Hid Hty.
+    assert (Hne : l1 ++ l2 <> []). { destruct l1; [destruct Hin|discriminate]. }
+    unfold weighted_defuzzify. rewrite Hty, (resolve_remove _ _ _ _ Hty Hne). cbn [bind].
+    rewrite (grouped_insert_existing agg l1 a l2 Hin Hid).
+    assert (W : winit (l1 ++ a :: l2) = winit (l1 ++ l2) :> T * T). { destruct l1; [destruct Hin|reflexivity]. }
+    now rewrite W.
+  Qed.
+End ExistingName.
+
+Section IdentityER.
+  Local Open Scope R_scope.
+
+  Ltac er_split :=
+    repeat match goal with
+    | |- context [Rltb ?a ?b] => destruct (Rltb_spec a b)
+    | |- context [Rleb ?a ?b] => destruct (Rleb_spec a b)
+    | |- context [Reqb ?a ?b] => destruct (Reqb_spec a b)
+    | |- context [Req_EM_T ?a ?b] => destruct (Req_EM_T a b)
+    | |- context [Rlt_dec ?a ?b] => destruct (Rlt_dec a b)
+    end.
+
+  (* 0 is a right identity of every registered S-norm on [0,1], through the sanitising setter *)
+  Lemma snorm_zero_identity_ER sn r : 0 <= r <= 1 -> sanitize (snorm_compute sn (Fin r) zero) = Fin r.
+  Proof.
+    intros Hr. rewrite zero_ER.
+    destruct sn; cbn [snorm_compute]; ungen; unfold sanitize; unER; unfold Rlit;
+    cbn [Z.leb Z.compare Z.mul Z.pow Z.pow_pos Pos.iter Pos.mul Z.opp Pos.compare Pos.compare_cont
+         ERadd ERsub ERneg ERmul ERdiv ERmin ERmax ERltb EReqb ERleb ERisnan ERsigned_inf ERsgn cmul negb orb andb].
+    all: er_split; cbn [ERadd ERsub ERneg ERmul ERdiv ERmin ERmax ERltb EReqb ERleb ERisnan ERsigned_inf ERsgn cmul negb orb andb].
+    all: er_split.
+    all: try (f_equal; lra).
+    all: try (exfalso; lra).
+    all: cbn [ERisnan]; try reflexivity.
+    all: f_equal; field; lra.
+  Qed.
+  (* plain addition (no aggregation operator): for every finite degree *)
+  Lemma usum_zero_identity_ER r : sanitize (snorm_compute S_UnboundedSum (Fin r) zero) = Fin r.
+  Proof. rewrite zero_ER. cbn. f_equal. ring. Qed.
+
+  Variables tm tt : term ER -> ER -> result ER.
+
+  Theorem zero_degree_neutral_existing_ER average ty (agg : option snorm) (l1 : list (activated ER)) a l2 this_type :
+    a_degree a = zero ->
+    In (act_name a) (names l1) ->
+    (forall g, In g (grouped_terms (option_map SN agg) l1) -> act_name g = act_name a ->
+               exists r, a_degree g = Fin r /\ 0 <= r <= 1) ->
+    resolve_type ty (l1 ++ a :: l2) = Ok this_type ->
+    weighted_defuzzify tm tt average ty (option_map SN agg) (l1 ++ a :: l2) =
+    weighted_defuzzify tm tt average ty (option_map SN agg) (l1 ++ l2).
+  Proof.
+    intros Hd Hin Hu Hty. apply (@zero_degree_neutral_existing_gen ER NumER tm tt average ty _ l1 a l2 this_type Hin); [|exact Hty].
+    intros g Hg En. destruct (Hu g Hg En) as (r & -> & Hr). rewrite Hd.
+    destruct agg as [sn|]; cbn [option_map agg_or_sum snormx_compute].
+    - now apply snorm_zero_identity_ER.
+    - apply usum_zero_identity_ER.
+  Qed.
+End IdentityER.
+
+(* ================================================================================================ *)
+(* 5. ... and the refutation of the unconditional statement (finding F4)                             *)
+
+Section Refutation.
+  Local Open Scope R_scope.
+
+  (* "an activation with degree 0 never changes the result", for an activation of a new name whose term can be
+     evaluated, under the faithful model with the standard term evaluations *)
+  Definition zero_degree_neutral_statement : Prop :=
+    forall (tbl : @value_table ER) average ty agg (l1 : list (activated ER)) a l2 this_type,
+      a_degree a = zero ->
+      ~ In (act_name a) (names (l1 ++ l2)) ->
+      resolve_type ty (l1 ++ a :: l2) = Ok this_type ->
+      (exists z, term_value (std_membership tbl) std_tsukamoto this_type (a_term a) zero = Ok z) ->
+      std_defuzzify tbl average ty agg (l1 ++ a :: l2) = std_defuzzify tbl average ty agg (l1 ++ l2).
+
+  Definition w_ramp : activated ER :=
+    {| a_term := TShape "a" (Sh_Ramp (Fin 0) (Fin 1) (Fin 1)); a_degree := Fin (1/2); a_implication := None |}.
+  Definition w_concave : activated ER :=
+    {| a_term := TShape "b" (Sh_Concave (Fin 0) (Fin 1) (Fin 1)); a_degree := zero; a_implication := None |}.
+
+  Ltac er_step :=
+    match goal with
+    | |- context [Req_EM_T ?a ?b] => destruct (Req_EM_T a b); try (exfalso; lra)
+    | |- context [Rlt_dec ?a ?b] => destruct (Rlt_dec a b); try (exfalso; lra)
+    end; cbv iota beta.
+  Ltac er_cbv := cbv - [Rplus Rmult Rminus Ropp Rdiv Rinv IZR Req_EM_T Rlt_dec Rle_dec Rlt Rle].
+
+  Lemma w_avg_before : std_defuzzify [] true WAutomatic None [w_ramp] = Ok (Fin (1/2)).
+  Proof. er_cbv. repeat er_step. f_equal. f_equal. field. Qed.
+  Lemma w_avg_after : std_defuzzify [] true WAutomatic None [w_ramp; w_concave] = Ok NaN.
+  Proof. er_cbv. repeat er_step. reflexivity. Qed.
+  Lemma w_sum_before : std_defuzzify [] false WAutomatic None [w_ramp] = Ok (Fin (1/4)).
+  Proof. er_cbv. repeat er_step. f_equal. f_equal. field. Qed.
+  Lemma w_sum_after : std_defuzzify [] false WAutomatic None [w_ramp; w_concave] = Ok NaN.
+  Proof. er_cbv. repeat er_step. reflexivity. Qed.
+  Lemma w_concave_z0 : std_tsukamoto (a_term w_concave) zero = Ok NInf.
+  Proof. er_cbv. repeat er_step. reflexivity. Qed.
+  Lemma w_type : resolve_type WAutomatic [w_ramp; w_concave] = Ok WTsukamoto.
+  Proof. reflexivity. Qed.
+
+  Theorem zero_degree_neutral_refuted_exists :
+    exists (l : list (activated ER)) (a : activated ER) (average : bool),
+      a_degree a = zero /\ ~ In (act_name a) (names l) /\
+      resolve_type WAutomatic (l ++ [a]) = Ok WTsukamoto /\
+      std_tsukamoto (a_term a) zero = Ok NInf /\
+      std_defuzzify [] average WAutomatic None l = Ok (Fin (1/2)) /\
+      std_defuzzify [] average WAutomatic None (l ++ [a]) = Ok NaN.
+  Proof.
+    exists [w_ramp], w_concave, true. repeat split.
+    - cbn. intros [H|[]]. discriminate.
+    - exact w_concave_z0.
+    - exact w_avg_before.
+    - exact w_avg_after.
+  Qed.
+
+  Theorem zero_degree_neutral_refuted : ~ zero_degree_neutral_statement.
+  Proof.
+    intros H. specialize (H [] true WAutomatic None [w_ramp] w_concave [] WTsukamoto eq_refl).
+    cbn [app] in H. rewrite w_avg_after, w_avg_before in H.
+    assert (X : Ok NaN = Ok (Fin (1 / 2)) :> result ER); [|discriminate].
+    apply H.
+    - cbn. intros [E|[]]. discriminate.
+    - reflexivity.
+    - exists NInf. exact w_concave_z0.
+  Qed.
+
+  (* the same on binary64 (no oracle needed: Concave.tsukamoto is + - * / only) *)
+  Definition f_ramp : activated float :=
+    {| a_term := TShape "a" (Sh_Ramp 0%float 1%float 1%float); a_degree := 0.5%float; a_implication := None |}.
+  Definition f_concave : activated float :=
+    {| a_term := TShape "b" (Sh_Concave 0%float 1%float 1%float); a_degree := 0%float; a_implication := None |}.
+  Definition fdefuzz average l := @std_defuzzify float (NumF true []) [] average WAutomatic None l.
+  Definition res_feq (r : result float) (x : float) : bool := match r with Ok y => feq y x | Err _ => false end.
+  Lemma f_avg_before : res_feq (fdefuzz true [f_ramp]) 0.5%float = true.
+  Proof. vm_compute. reflexivity. Qed.
+  Lemma f_avg_after : res_feq (fdefuzz true [f_ramp; f_concave]) PrimFloat.nan = true.
+  Proof. vm_compute. reflexivity. Qed.
+  Lemma f_sum_after : res_feq (fdefuzz false [f_ramp; f_concave]) PrimFloat.nan = true.
+  Proof. vm_compute. reflexivity. Qed.
+End Refutation.
+
+(* ================================================================================================ *)
+(* 6. Final forms of the structural statements                                                       *)
+
+Section Final.
+  Context {T : Type} {N : Num T}.
+  Implicit Types (l : list (activated T)).
+
+  Theorem grouping_spec agg l :
+    let G := grouped_terms agg l in
+    names G = first_names l /\ NoDup (names G) /\ (forall n, In n (names G) <-> In n (names l)) /\
+    forall g, In g G ->
+      exists a rest, occurrences (act_name g) l = a :: rest /\ a_term g = a_term a /\ a_implication g = None /\
+                     a_degree g = fold_degree (agg_or_sum agg) (a_degree a) (map a_degree rest).
+  Proof.
+    cbn zeta. split; [apply grouped_names|]. split; [apply grouped_NoDup|]. split.
+    - intros n. rewrite grouped_names. apply first_names_In.
+    - intros g Hg. exact (grouped_group_ok _ _ _ Hg).
+  Qed.
+
+  Theorem infer_type_spec l :
+    (forall ty, infer_type l = Ok ty <->
+                (l = [] /\ ty = WAutomatic) \/ (l <> [] /\ forall a, In a l -> term_wtype (a_term a) = ty)) /\
+    (forall e, infer_type l = Err e <->
+               e = EInternal /\ exists a b, In a l /\ In b l /\ term_wtype (a_term a) <> term_wtype (a_term b)).
+  Proof. split; intros; [apply infer_type_ok|apply infer_type_err]. Qed.
+
+  Theorem explicit_type_wins tm tt average ty agg l : ty <> WAutomatic ->
+    weighted_defuzzify tm tt average ty agg l =
+    (do st <- wloop tm tt ty (grouped_terms agg l) (winit l); Ok (wfinal average st)).
+  Proof. intros H. unfold weighted_defuzzify. now rewrite (resolve_explicit l H). Qed.
+
+  Theorem tsukamoto_requires_monotonic (tbl : @value_table T) average ty agg l :
+    resolve_type ty l = Ok WTsukamoto ->
+    (existsb (fun g => negb (has_tsukamoto (a_term g))) (grouped_terms agg l) = true ->
+       std_defuzzify tbl average ty agg l = Err ERuntime) /\
+    (forallb (fun g => has_tsukamoto (a_term g)) (grouped_terms agg l) = true ->
+       exists y, std_defuzzify tbl average ty agg l = Ok y).
+  Proof.
+    intros Hty. unfold std_defuzzify, weighted_defuzzify. rewrite Hty. cbn [bind]. split; intros H.
+    - now rewrite wloop_tsukamoto_err.
+    - destruct (wloop_tsukamoto_ok tbl _ (winit l) H) as (st & ->). cbn [bind]. eexists. reflexivity.
+  Qed.
+End Final.
